@@ -18,7 +18,9 @@ func checks() map[string]*Check {
 			{Scen: "w1", Params: "crash=1,torn=1,voters=3", Quick: 16, Thorough: 400},
 			{Scen: "w1", Params: "crash=0,voters=5", Quick: 16, Thorough: 400},
 		},
-		NT:     func(r *Result) bool { return cnt(r, "fsm.apply") > 0 && (cnt(r, "becameLeader") >= 2 || cnt(r, "log.trunc") > 0 || cnt(r, "node.crash") > 0) },
+		NT: func(r *Result) bool {
+			return cnt(r, "fsm.apply") > 0 && (cnt(r, "becameLeader") >= 2 || cnt(r, "log.trunc") > 0 || cnt(r, "node.crash") > 0)
+		},
 		Rule:   "runs are PRNG-determined fault schedules (W1) and directed choreographies (W2); a run is non-trivial when operations were applied and there was a leader change, a log truncation or a crash; distinct = distinct abstract trace (sequence of (leader,term) starts, fault steps, counts of truncations/crashes/snapshots)",
 		Assume: clusterAssume})
 
@@ -103,7 +105,10 @@ func checks() map[string]*Check {
 	}
 	m["C06"].Rule += "; puppet runs: each run = 60 request sequences against a fresh real node, non-trivial when the exact commit-bound clause was evaluated"
 	m["C06"].Assume = append(m["C06"].Assume, puppetAssume...)
-	m["C08"].Runs = append(m["C08"].Runs, RunSpec{Scen: "puppet.rv", Params: "cases=30", Quick: 24, Thorough: 600})
+	m["C04"].Runs = append(m["C04"].Runs, RunSpec{Scen: "w2.stalereply", Quick: 12, Thorough: 300})
+	m["C01"].Runs = append(m["C01"].Runs, RunSpec{Scen: "w2.stalereply", Quick: 8, Thorough: 200})
+	m["C08"].Runs = append(m["C08"].Runs, RunSpec{Scen: "puppet.rv", Params: "cases=30", Quick: 16, Thorough: 400}, RunSpec{Scen: "puppet.rv", Params: "cases=30,snapthr=2", Quick: 16, Thorough: 400},
+		RunSpec{Scen: "w1", Params: "snapshots=1,crash=1,snapthr=5,voters=3", Quick: 16, Thorough: 400})
 	m["C08"].NT = func(r *Result) bool {
 		if r.Scen == "puppet.rv" {
 			return cnt(r, "msg.RV") > 0 && cnt(r, "node.crash") > 0
@@ -129,7 +134,7 @@ func checks() map[string]*Check {
 		NT:     func(r *Result) bool { return cnt(r, "c10.local_snapshots") > 0 && cnt(r, "fsm.apply") > 0 },
 		Rule:   "W1 schedules with snapshots on (threshold 4-30 entries, payload padding 0 B .. 3.5 chunks, four state-machine delay profiles drawn from the seed); every locally taken snapshot is decoded at Close and compared with the canonical history at its label; every Apply is followed by a comparison of the replica state with the canonical state; every Restore is compared with a completed snapshot. Non-trivial: snapshots were taken while operations were applied",
 		Assume: clusterAssume})
-	m["C11"].Runs = append(m["C11"].Runs, RunSpec{Scen: "w1", Params: "snapshots=1,crash=1", Quick: 48, Thorough: 1200})
+	m["C11"].Runs = append(m["C11"].Runs, RunSpec{Scen: "w1", Params: "snapshots=1,crash=1", Quick: 48, Thorough: 1200}, RunSpec{Scen: "w2.installcrash", Params: "snapshots=1", Quick: 32, Thorough: 800})
 	m["C11"].NT = func(r *Result) bool {
 		if r.Scen == "puppet.is" {
 			return cnt(r, "c11.probes") > 0 && cnt(r, "msg.IS") > 0
@@ -169,7 +174,9 @@ func checks() map[string]*Check {
 			{Scen: "codec.e2e", Params: "size=4718592", Quick: 1, Thorough: 2},
 			{Scen: "codec.e2e", Params: "size=9437184", Quick: 0, Thorough: 2},
 		},
-		NT:     func(r *Result) bool { return cnt(r, "codec.wire_cases")+cnt(r, "codec.storage_cases")+cnt(r, "codec.e2e_runs") > 0 },
+		NT: func(r *Result) bool {
+			return cnt(r, "codec.wire_cases")+cnt(r, "codec.storage_cases")+cnt(r, "codec.e2e_runs") > 0
+		},
 		Rule:   "wire: generated requests/replies (0, 1, 2^31, 2^63, max uint64, random; ids empty/ASCII/UTF-8/NUL; 0..40 entries of all three types; data nil/empty/1 B/64 KiB/1 MiB; snapshot chunks up to just under 4 MiB; an oversize request must fail, not change) sent between two real transports on loopback and compared field by field; storage: log append/reopen/read, SetState/State across a new instance, Encode/DecodeConfiguration, snapshot metadata+content; end to end: leader's state machine writes N bytes, an empty follower over the real transport must restore exactly those bytes. nil and empty byte slices are treated as equal (proto3), conversions are counted. Each run = one seed-determined batch; distinct = distinct batches",
 		Assume: []string{"loopback TCP on 127.0.0.1 is available", "nil vs empty byte slices are not distinguished (not representable in proto3)"}})
 
@@ -181,7 +188,9 @@ func checks() map[string]*Check {
 			{Scen: "w2.votes", Params: "", Quick: 4, Thorough: 80, Race: true, Par: 8},
 			{Scen: "w2.bounce", Params: "", Quick: 4, Thorough: 80, Race: true, Par: 8},
 		},
-		NT:     func(r *Result) bool { return cnt(r, "race.runs") > 0 && (cnt(r, "msg.send") > 100 || r.Scen == "race.grpc") },
+		NT: func(r *Result) bool {
+			return cnt(r, "race.runs") > 0 && (cnt(r, "msg.send") > 100 || r.Scen == "race.grpc")
+		},
 		Rule:   "the harness is built with -race; runs are real-time clusters on the simulated network (deep-copying) and on the bundled gRPC transport, with many goroutines calling every public method (submissions of all types, Status, Configuration, AddServer/RemoveServer, Bootstrap on a running node, Stop/Restart on the same object, crash+restart) across leader changes, snapshots (slow state machine) and shutdowns. Race reports are read from the detector's log files; a report whose two accesses both lie in the library is a violation, de-duplicated by the pair of innermost library functions",
 		Assume: []string{"the race detector only reports races on interleavings that happened; a clean run is not race freedom", "reports with a harness-only stack on one side are harness errors and are listed separately"}})
 
@@ -252,11 +261,15 @@ func checks() map[string]*Check {
 			{Scen: "w2.figure8", Quick: 8, Thorough: 200},
 			{Scen: "w2.installcrash", Params: "snapshots=1", Quick: 16, Thorough: 400},
 			{Scen: "w2.boundarylag", Params: "snapshots=1,pad=100", Quick: 24, Thorough: 600},
+			{Scen: "w1", Params: "snapshots=1,crash=0,bounce=1,restoreus=4000,snapthr=5,voters=3", Quick: 24, Thorough: 600},
+			{Scen: "w2.bouncerestore", Params: "snapshots=1,restoreus=15000", Quick: 24, Thorough: 600},
 			{Scen: "w2.members", Quick: 16, Thorough: 400},
 			{Scen: "codec.e2e", Params: "size=4718592", Quick: 1, Thorough: 2},
 			{Scen: "puppet.is", Params: "cases=30", Quick: 16, Thorough: 400},
 		},
-		NT:     func(r *Result) bool { return cnt(r, "c15.quiesce_ok")+cnt(r, "codec.e2e_runs")+cnt(r, "puppet.install_handler_waited") > 0 },
+		NT: func(r *Result) bool {
+			return cnt(r, "c15.quiesce_ok")+cnt(r, "codec.e2e_runs")+cnt(r, "puppet.install_handler_waited") > 0
+		},
 		Rule:   "bounded-progress restatement, counted in protocol steps seen by the network (not seconds): after the heal of a fault schedule, (a) within 40 candidacy rounds per running voter a leader exists that then completes 20 heartbeat rounds unchallenged, (b) every running member reaches that leader's applied index within 300 completed exchanges on its link (log repair or snapshots below and above the chunk size), (c) a fresh write is acknowledged within 100 heartbeat exchanges. A wall-clock watchdog firing first is inconclusive. Non-trivial: the quiesce phase completed after a non-empty fault schedule",
 		Assume: append([]string{"'eventually' is restated as a step bound; no finite run decides the unbounded statement"}, clusterAssume...)})
 
@@ -271,7 +284,9 @@ func checks() map[string]*Check {
 			{Scen: "w2.nvquorum", Quick: 12, Thorough: 300},
 			{Scen: "w2.deposedread", Params: "opcap=2000", Quick: 8, Thorough: 200},
 		},
-		NT:     func(r *Result) bool { return cnt(r, "c09.election_quorum_checks") > 0 && (cnt(r, "c09.commit_majority_checks") > 0 || cnt(r, "c09.cfg_vs_log_checks") > 0) },
+		NT: func(r *Result) bool {
+			return cnt(r, "c09.election_quorum_checks") > 0 && (cnt(r, "c09.commit_majority_checks") > 0 || cnt(r, "c09.cfg_vs_log_checks") > 0)
+		},
 		Rule:   "random schedules of membership requests (add non-voter, promote, add voter directly, remove follower, remove leader, back-to-back without waiting, to any node, with retries) from 1-4 initial voters interleaved with partitions and crashes, plus choreographies: membership-lag split (two additions the old followers have not learnt, then a partition), remove-then-add without waiting, leader removing itself while partitioned, non-voter-only quorums for elections / commitment / reads. Oracles: C01, C02, C07 unchanged; reported configuration = own log entry at that index; successful futures carry a committed configuration containing the change that is still committed at the end; every election is backed by delivered votes of a majority of the VOTERS of the winner's configuration; every commit is backed by a majority of the voters of a configuration that leader can have been using. Requests that would leave no voter at all are not generated",
 		Assume: clusterAssume})
 
@@ -280,7 +295,9 @@ func checks() map[string]*Check {
 		"byte prefixes of a write: all when <= 128 bytes, else the first/last 8 and every 64th",
 		"loss of un-fsynced data (power failure) is not modelled here",
 	}
-	img := func(r *Result) bool { return cnt(r, "images") > 0 && cnt(r, "traces_validated") > 0 }
+	img := func(r *Result) bool {
+		return (cnt(r, "images") > 0 && cnt(r, "traces_validated") > 0) || cnt(r, "snap.open") > 3
+	}
 	add(&Check{ID: "C12", Level: "fault_enumeration", Props: []string{"C12"},
 		Runs: []RunSpec{
 			{Scen: "store.log", Params: "ops=8", Quick: 16, Thorough: 200},
@@ -296,6 +313,7 @@ func checks() map[string]*Check {
 			{Scen: "store.snap", Params: "ops=3", Quick: 12, Thorough: 150},
 			{Scen: "store.snap", Params: "ops=8", Quick: 4, Thorough: 60},
 			{Scen: "store.snap", Params: "ops=40", Quick: 1, Thorough: 12},
+			{Scen: "w1", Params: "snapshots=1,crash=1,snapus=6000,pad=40000,voters=3", Quick: 16, Thorough: 400},
 		},
 		NT:     img,
 		Rule:   "each evaluation is one seed-determined SetState sequence or snapshot-storage sequence (create/write*/close|discard/get/reopen, payloads 0 B..>2 chunks, up to 40 snapshots) under strace; on every crash image the storages and NewRaft must construct at the first attempt, State() must be the last returned or the in-flight value, SnapshotFile() the most recently closed snapshot (or its in-flight successor), complete and with matching metadata",
